@@ -10,6 +10,7 @@ import (
 	"sort"
 	"strconv"
 	"sync"
+	"sync/atomic"
 	"time"
 )
 
@@ -42,6 +43,7 @@ type Run struct {
 	extra       map[string]any
 	inconcl     string
 	exhaustive  bool
+	nsamples    atomic.Int64
 }
 
 // Start reads VERIF_SEED / VERIF_TIER / VERIF_UNIT and returns a collector.
@@ -119,6 +121,10 @@ func (r *Run) DistinctN(set string) int {
 
 // Sample keeps the first few cases written out.
 func (r *Run) Sample(x any) {
+	if r.nsamples.Load() >= int64(r.maxSamples) {
+		return
+	}
+	r.nsamples.Add(1)
 	r.mu.Lock()
 	if len(r.samples) < r.maxSamples {
 		r.samples = append(r.samples, x)
@@ -201,6 +207,12 @@ func (r *Run) Finish() {
 	sort.Strings(missed)
 	cov["floors"] = floors
 	inconcl := r.inconcl
+	if len(r.samples) == 0 {
+		cov["samples"] = []any{}
+		if inconcl == "" && r.Only < 0 {
+			inconcl = "no sample case recorded"
+		}
+	}
 	if inconcl == "" && len(missed) > 0 {
 		inconcl = "coverage floor missed: " + fmt.Sprint(missed)
 	}
